@@ -1189,7 +1189,36 @@ def model_slice_len(ex, args, fn):
     raise Unsupported("len of %r" % (a,))
 
 
+def model_binary_search(ex, args, fn):
+    """<[T]>::binary_search on a constant, strictly increasing array of integers: Ok(i) when v == a[i], Err(insertion point) otherwise."""
+    arr, key = args
+    arr = _deref(ex, arr)
+    key = _deref(ex, key)
+    vals = arr.values if isinstance(arr, ConstArray) else arr.fields
+    cs = []
+    for x in vals:
+        if not isinstance(x, Int) or not sx.is_const(x.t):
+            raise Unsupported("binary_search over a non-constant array")
+        cs.append(sx.cval(x.t))
+    if any(cs[i] >= cs[i + 1] for i in range(len(cs) - 1)):
+        raise Unsupported("binary_search over an array that is not strictly increasing (result unspecified)")
+    res = []
+    v = key.t
+    for i, c in enumerate(cs):
+        res.append((sx.eq(v, sx.const(c)), "ret", Enum("Ok", [Int(sx.const(i), "usize")]), ""))
+        lo = sx.gt(v, sx.const(cs[i - 1])) if i else sx.TRUE
+        res.append((sx.and_(lo, sx.lt(v, sx.const(c))), "ret", Enum("Err", [Int(sx.const(i), "usize")]), ""))
+    res.append((sx.gt(v, sx.const(cs[-1])), "ret", Enum("Err", [Int(sx.const(len(cs)), "usize")]), ""))
+    return [r for r in res if r[0] is not sx.FALSE]
+
+
+def model_identity(ex, args, fn):
+    return [(sx.TRUE, "ret", args[0], "")]
+
+
 MODELS = {
+    r"^<Vec<.*> as Clone>::clone$": model_identity,
+    r"^core::slice::<impl \[u\d+\]>::binary_search$": model_binary_search,
     r"^Vec::<.*>::new$": model_vec_new,
     r"^Vec::<.*>::push$": model_vec_push,
     r"^std::vec::from_elem::<.*>$": model_from_elem,
